@@ -421,6 +421,13 @@ class Ctx:
                 self.reported_known.add(k['id'])
                 print('KNOWN-FINDING: property=%s %s' % (self.prop, k['what']))
             return
+        # at most two replays per distinct tag set (keeps the report readable)
+        key = json.dumps(tags, sort_keys=True, default=str)
+        self._per_tag = getattr(self, '_per_tag', {})
+        self._per_tag[key] = self._per_tag.get(key, 0) + 1
+        if self._per_tag[key] > 2:
+            self.violations.append((None, found_input, what))
+            return
         body = {'property': self.prop, 'what': what, 'tags': tags, 'found_input': found_input,
                 'replay': jsonable(replay), 'seed': self.seed, 'tier': self.tier}
         h = hashlib.sha1(json.dumps(body, sort_keys=True, default=str).encode()).hexdigest()[:10]
@@ -434,8 +441,8 @@ class Ctx:
         wall = time.time() - self.t0
         # prefer a violation with a failing input when reporting
         seen = set()
-        for path, found, what in self.violations[:20]:
-            if path in seen:
+        for path, found, what in self.violations:
+            if path is None or path in seen or len(seen) >= 20:
                 continue
             seen.add(path)
             print('VIOLATION property=%s replay=%s%s' % (self.prop, path, '' if found else ' no-failing-input-found'))
